@@ -3,7 +3,7 @@
    reader returns (Props/C05-C06 cover the reader); a datagram the reader rejects is the
    label OpFeedGarbage. *)
 From LibTw2 Require Import Base.Res Model.PacketTypes Model.ConnCore Model.Conn6 Model.Conn7
-  Proofs.ConnInert.
+  Proofs.ConnInert Proofs.ConnFeedBytes6.
 From Coq Require Import ZArith List.
 Open Scope Z_scope.
 
@@ -14,6 +14,16 @@ Theorem C03_inert6 : forall c e d t,
   token_fixed6 c t -> conn_oriented d = true -> dgram_tok d <> Some t ->
   feed c e d = Ok (mk c e [] [] [WTokenMismatch] ROk).
 Proof. exact inert6. Qed.
+
+(* the same for BYTES: feed_bytes6 = the library's packet reader (Model/Packet6.v with the Huffman
+   decoder of Model/Huffman.v, given the token hint the connection passes and a 1400-byte scratch
+   buffer) followed by feed. For every byte string whatsoever -- well-formed of every kind, mutated,
+   truncated, compressed, random: unless the reader returns a connection-oriented packet carrying
+   exactly the agreed token, nothing happens (a warning at most). *)
+Theorem C03_inert6_bytes : forall c e bs t,
+  token_fixed6 c t -> bytes_ok bs = true -> reads_connless6 c bs = false -> carried_token6 c bs <> Some t ->
+  exists ws, feed_bytes6 c e bs = Ok (mk c e [] [] ws ROk).
+Proof. exact inert6_bytes. Qed.
 
 (* truncated / mutated / random bytes the reader rejects *)
 Theorem C03_garbage6 : forall c e, step c e OpFeedGarbage = Ok (mk c e [] [] [] ROk).
@@ -62,6 +72,7 @@ Example C03_nonvacuous :
 Proof. vm_compute. repeat split. Qed.
 
 Print Assumptions C03_inert6.
+Print Assumptions C03_inert6_bytes.
 Print Assumptions C03_garbage6.
 Print Assumptions C03_inert7.
 Print Assumptions C03_inert7_connless.
